@@ -308,7 +308,7 @@ class Deployment:
                 raise ValueError("unknown op %r" % kind)
             rec["out"] = capture(out)
             rec["raised"] = None
-        except Exception as e:  # noqa: BLE001
+        except (Exception, simpool.PoolWouldHang) as e:  # noqa: BLE001
             rec["out"] = None
             rec["raised"] = exc_chain(e)
             rec["tb"] = traceback.format_exc()[-1500:]
@@ -383,7 +383,7 @@ class Deployment:
                 raise ValueError(kind)
             rec["out"] = capture(out) if out is not None else None
             rec["raised"] = None
-        except Exception as e:  # noqa: BLE001
+        except (Exception, simpool.PoolWouldHang) as e:  # noqa: BLE001
             rec["out"] = None
             rec["raised"] = exc_chain(e)
             rec["tb"] = traceback.format_exc()[-1500:]
